@@ -3,6 +3,8 @@
 #![allow(dead_code)]
 use std::io::{self, Read, Seek, SeekFrom, Write};
 
+const SMALL: usize = 16;
+
 /// Fixed-size, infallible backing store.  Running out of the array or
 /// writing beyond the current end is assumed away (environment assumption
 /// "the backing store has room and is written contiguously").
@@ -39,7 +41,17 @@ impl<const N: usize> Read for ArrFile<N> {
         let avail = if self.pos < self.len { self.len - self.pos } else { 0 };
         let n = if buf.len() < avail { buf.len() } else { avail };
         if n > 0 {
-            buf[..n].copy_from_slice(&self.data[self.pos..self.pos + n]);
+            if n <= SMALL {
+                // byte-wise for small transfers: keeps CBMC's constant
+                // propagation alive (memcpy of an array region does not)
+                let mut i = 0;
+                while i < n {
+                    buf[i] = self.data[self.pos + i];
+                    i += 1;
+                }
+            } else {
+                buf[..n].copy_from_slice(&self.data[self.pos..self.pos + n]);
+            }
             self.pos += n;
         }
         Ok(n)
@@ -52,7 +64,15 @@ impl<const N: usize> Write for ArrFile<N> {
         kani::assume(self.pos <= self.len);
         kani::assume(self.pos + n <= N);
         if n > 0 {
-            self.data[self.pos..self.pos + n].copy_from_slice(buf);
+            if n <= SMALL {
+                let mut i = 0;
+                while i < n {
+                    self.data[self.pos + i] = buf[i];
+                    i += 1;
+                }
+            } else {
+                self.data[self.pos..self.pos + n].copy_from_slice(buf);
+            }
             self.pos += n;
             if self.pos > self.len {
                 self.len = self.pos;
